@@ -280,5 +280,174 @@ theorem CInv.shCore_ccw {s : St} (hc : CInv s) (e0 : Nat) (p : Pt) (d : Nat) (b_
     intro hfx
     grind (splits := 40)
 
+set_option maxHeartbeats 4000000 in
+/-- `split_half_edge` keeps the anchor of every inner face on the face -/
+theorem LInv.shCore_ft {s : St} (hs : LInv s) (hft3 : s.FaceTriples) (e0 : Nat) (p : Pt) (d : Nat) (b_0 : e0 < s.nE)
+    (hfe0 : s.fc e0 ≠ 0) (hft0 : s.fc (s.rv e0) = 0) :
+    (St.shCore s e0 (s.nxt e0) (s.prv e0) (s.rv e0) (s.prv (s.rv e0))
+      (s.org (s.prv e0)) (s.org (s.rv e0)) (s.fc e0) (s.fc (s.rv e0)) p d).FaceTriples := by
+  have ev0 := hs.even
+  have b_3 := hs.rv_lt b_0
+  obtain ⟨b_1, b_2, a3, a4, a5, a6, a7, a8, a9, a10, a11⟩ := hs.tri b_0 hfe0
+  obtain ⟨x1, x2⟩ := hs.tri_cross b_0 hfe0
+  have rr := hs.rv_rv b_0
+  have rne := hs.rv_ne b_0
+  have E0 := hs.edge e0 b_0
+  have E1 := hs.edge _ b_1
+  have E2 := hs.edge _ b_2
+  have E3 := hs.edge _ b_3
+  have b_4 : s.prv (s.rv e0) < s.nE := E3.2.2.1
+  have E4 := hs.edge _ b_4
+  have c4 : s.nxt (s.prv (s.rv e0)) = s.rv e0 := E3.2.2.2.2.2.2.1
+  have c8 : s.fc (s.prv (s.rv e0)) = 0 := by
+    have := E4.2.2.2.2.2.2.2.1; rw [c4, hft0] at this; exact this.symm
+  have r1 := hs.rv_rv b_1
+  have r2 := hs.rv_rv b_2
+  have r4 := hs.rv_rv b_4
+  have l1 := hs.rv_lt b_1
+  have l2 := hs.rv_lt b_2
+  have l4 := hs.rv_lt b_4
+  have bn : s.nxt (s.rv e0) < s.nE := E3.2.1
+  have En := hs.edge _ bn
+  generalize hen : s.nxt e0 = en at *
+  generalize hep : s.prv e0 = ep at *
+  generalize ht : s.rv e0 = tw at *
+  generalize htq : s.prv tw = tq at *
+  have dd : e0 ≠ en ∧ e0 ≠ ep ∧ e0 ≠ tw ∧ e0 ≠ tq ∧ en ≠ ep ∧ en ≠ tw ∧ en ≠ tq ∧ ep ≠ tw ∧ ep ≠ tq ∧ tw ≠ tq := by
+    unfold EdgeOK dst at *
+    refine ⟨a9, a10, Ne.symm rne, ?_, a11, Ne.symm x1, ?_, Ne.symm x2, ?_, ?_⟩
+    all_goals grind
+  obtain ⟨d_0_1, d_0_2, d_0_3, d_0_4, d_1_2, d_1_3, d_1_4, d_2_3, d_2_4, d_3_4⟩ := dd
+  have fb1 : s.fc e0 < s.nF := E0.2.2.2.1
+  have n_0 : ∀ k, s.nE + k ≠ e0 := by intro k; omega
+  have m_0 : s.nE ≠ e0 := by omega
+  have u_0 : ∀ k, e0 < s.nE + k := by intro k; omega
+  have n_1 : ∀ k, s.nE + k ≠ en := by intro k; omega
+  have m_1 : s.nE ≠ en := by omega
+  have u_1 : ∀ k, en < s.nE + k := by intro k; omega
+  have n_2 : ∀ k, s.nE + k ≠ ep := by intro k; omega
+  have m_2 : s.nE ≠ ep := by omega
+  have u_2 : ∀ k, ep < s.nE + k := by intro k; omega
+  have n_3 : ∀ k, s.nE + k ≠ tw := by intro k; omega
+  have m_3 : s.nE ≠ tw := by omega
+  have u_3 : ∀ k, tw < s.nE + k := by intro k; omega
+  have n_4 : ∀ k, s.nE + k ≠ tq := by intro k; omega
+  have m_4 : s.nE ≠ tq := by omega
+  have u_4 : ∀ k, tq < s.nE + k := by intro k; omega
+  have szE : (s.shCore e0 en ep tw tq (s.org ep) (s.org tw) (s.fc e0) (s.fc tw) p d).nE = s.nE + 4 := by unfold St.shCore; evw [b_0, b_1, b_2, b_3, b_4, d_0_1, d_0_1.symm, d_0_2, d_0_2.symm, d_0_3, d_0_3.symm, d_0_4, d_0_4.symm, d_1_2, d_1_2.symm, d_1_3, d_1_3.symm, d_1_4, d_1_4.symm, d_2_3, d_2_3.symm, d_2_4, d_2_4.symm, d_3_4, d_3_4.symm, n_0, (n_0 _).symm, m_0, m_0.symm, u_0, n_1, (n_1 _).symm, m_1, m_1.symm, u_1, n_2, (n_2 _).symm, m_2, m_2.symm, u_2, n_3, (n_3 _).symm, m_3, m_3.symm, u_3, n_4, (n_4 _).symm, m_4, m_4.symm, u_4]
+  have szF : (s.shCore e0 en ep tw tq (s.org ep) (s.org tw) (s.fc e0) (s.fc tw) p d).nF = s.nF + 1 := by unfold St.shCore; evw [b_0, b_1, b_2, b_3, b_4, d_0_1, d_0_1.symm, d_0_2, d_0_2.symm, d_0_3, d_0_3.symm, d_0_4, d_0_4.symm, d_1_2, d_1_2.symm, d_1_3, d_1_3.symm, d_1_4, d_1_4.symm, d_2_3, d_2_3.symm, d_2_4, d_2_4.symm, d_3_4, d_3_4.symm, n_0, (n_0 _).symm, m_0, m_0.symm, u_0, n_1, (n_1 _).symm, m_1, m_1.symm, u_1, n_2, (n_2 _).symm, m_2, m_2.symm, u_2, n_3, (n_3 _).symm, m_3, m_3.symm, u_3, n_4, (n_4 _).symm, m_4, m_4.symm, u_4]
+  apply hs.faceTriples_of_local hft3 [e0, en, ep, tw, tq] [tq, en, e0] [en, ep, tw] [en] [s.fc e0]
+  · omega
+  · intro x hx
+    simp only [List.mem_cons, List.not_mem_nil, or_false] at hx ⊢
+    rcases hx with h | h | h <;> subst h <;> simp
+  · intro x hx
+    simp only [List.mem_cons, List.not_mem_nil, or_false] at hx ⊢
+    rcases hx with h | h | h <;> subst h <;> simp
+  · intro x hx
+    simp only [List.mem_cons, List.not_mem_nil, or_false] at hx ⊢
+    subst hx; simp
+  · intro i hi hT
+    simp only [List.mem_cons, List.not_mem_nil, or_false, not_or] at hT
+    have hin : ∀ k, i ≠ s.nE + k := by intro k; omega
+    have hik : ∀ k, i < s.nE + k := by intro k; omega
+    have hi0 : i ≠ s.nE := by omega
+    unfold St.shCore
+    evw [b_0, b_1, b_2, b_3, b_4, d_0_1, d_0_1.symm, d_0_2, d_0_2.symm, d_0_3, d_0_3.symm, d_0_4, d_0_4.symm, d_1_2, d_1_2.symm, d_1_3, d_1_3.symm, d_1_4, d_1_4.symm, d_2_3, d_2_3.symm, d_2_4, d_2_4.symm, d_3_4, d_3_4.symm, n_0, (n_0 _).symm, m_0, m_0.symm, u_0, n_1, (n_1 _).symm, m_1, m_1.symm, u_1, n_2, (n_2 _).symm, m_2, m_2.symm, u_2, n_3, (n_3 _).symm, m_3, m_3.symm, u_3, n_4, (n_4 _).symm, m_4, m_4.symm, u_4, hT, hin, hik, hi0, hi]
+  · intro i hi hT
+    simp only [List.mem_cons, List.not_mem_nil, or_false, not_or] at hT
+    have hin : ∀ k, i ≠ s.nE + k := by intro k; omega
+    have hik : ∀ k, i < s.nE + k := by intro k; omega
+    have hi0 : i ≠ s.nE := by omega
+    unfold St.shCore
+    evw [b_0, b_1, b_2, b_3, b_4, d_0_1, d_0_1.symm, d_0_2, d_0_2.symm, d_0_3, d_0_3.symm, d_0_4, d_0_4.symm, d_1_2, d_1_2.symm, d_1_3, d_1_3.symm, d_1_4, d_1_4.symm, d_2_3, d_2_3.symm, d_2_4, d_2_4.symm, d_3_4, d_3_4.symm, n_0, (n_0 _).symm, m_0, m_0.symm, u_0, n_1, (n_1 _).symm, m_1, m_1.symm, u_1, n_2, (n_2 _).symm, m_2, m_2.symm, u_2, n_3, (n_3 _).symm, m_3, m_3.symm, u_3, n_4, (n_4 _).symm, m_4, m_4.symm, u_4, hT, hin, hik, hi0, hi]
+  · intro i hi hT
+    simp only [List.mem_cons, List.not_mem_nil, or_false, not_or] at hT
+    have hin : ∀ k, i ≠ s.nE + k := by intro k; omega
+    have hik : ∀ k, i < s.nE + k := by intro k; omega
+    have hi0 : i ≠ s.nE := by omega
+    unfold St.shCore
+    evw [b_0, b_1, b_2, b_3, b_4, d_0_1, d_0_1.symm, d_0_2, d_0_2.symm, d_0_3, d_0_3.symm, d_0_4, d_0_4.symm, d_1_2, d_1_2.symm, d_1_3, d_1_3.symm, d_1_4, d_1_4.symm, d_2_3, d_2_3.symm, d_2_4, d_2_4.symm, d_3_4, d_3_4.symm, n_0, (n_0 _).symm, m_0, m_0.symm, u_0, n_1, (n_1 _).symm, m_1, m_1.symm, u_1, n_2, (n_2 _).symm, m_2, m_2.symm, u_2, n_3, (n_3 _).symm, m_3, m_3.symm, u_3, n_4, (n_4 _).symm, m_4, m_4.symm, u_4, hT, hin, hik, hi0, hi]
+  · intro f h0 hf hF
+    simp only [List.mem_cons, List.not_mem_nil, or_false, not_or] at hF
+    have hfn : ∀ k, f ≠ s.nF + k := by intro k; omega
+    have hf0 : f ≠ s.nF := by omega
+    have hfz : f ≠ 0 := by omega
+    unfold St.shCore; evw [b_0, b_1, b_2, b_3, b_4, d_0_1, d_0_1.symm, d_0_2, d_0_2.symm, d_0_3, d_0_3.symm, d_0_4, d_0_4.symm, d_1_2, d_1_2.symm, d_1_3, d_1_3.symm, d_1_4, d_1_4.symm, d_2_3, d_2_3.symm, d_2_4, d_2_4.symm, d_3_4, d_3_4.symm, n_0, (n_0 _).symm, m_0, m_0.symm, u_0, n_1, (n_1 _).symm, m_1, m_1.symm, u_1, n_2, (n_2 _).symm, m_2, m_2.symm, u_2, n_3, (n_3 _).symm, m_3, m_3.symm, u_3, n_4, (n_4 _).symm, m_4, m_4.symm, u_4, hfn, hf0, hfz, hF] <;> grind
+  · intro g hg hfg hmem
+    simp only [List.mem_cons, List.not_mem_nil, or_false] at hmem ⊢
+    have := hs.same_face_cycle hft3 b_0 hg hfe0 hmem
+    rw [hen, hep] at this
+    rcases this with h | h | h <;> simp [h]
+  · intro x hx hc hfx
+    have hx' : x = e0 ∨ x = en ∨ x = ep ∨ x = tw ∨ x = tq ∨ x = s.nE ∨ x = s.nE + 1 ∨ x = s.nE + 2 ∨ x = s.nE + 3 := by
+      rcases hc with h | h
+      · simp only [List.mem_cons, List.not_mem_nil, or_false] at h <;> omega
+      · omega
+    unfold St.shCore at hfx ⊢
+    unfold EdgeOK dst at *
+    rcases hx' with h | h | h | h | h | h | h | h | h <;> subst h
+    all_goals (revert hfx; evw [b_0, b_1, b_2, b_3, b_4, d_0_1, d_0_1.symm, d_0_2, d_0_2.symm, d_0_3, d_0_3.symm, d_0_4, d_0_4.symm, d_1_2, d_1_2.symm, d_1_3, d_1_3.symm, d_1_4, d_1_4.symm, d_2_3, d_2_3.symm, d_2_4, d_2_4.symm, d_3_4, d_3_4.symm, n_0, (n_0 _).symm, m_0, m_0.symm, u_0, n_1, (n_1 _).symm, m_1, m_1.symm, u_1, n_2, (n_2 _).symm, m_2, m_2.symm, u_2, n_3, (n_3 _).symm, m_3, m_3.symm, u_3, n_4, (n_4 _).symm, m_4, m_4.symm, u_4, hen, hep, ht, htq, a3, a4, a5, a6, c4, rr, fb1, hft0, c8]; intro hfx; grind (splits := 40))
+
+set_option maxHeartbeats 4000000 in
+theorem LInv.shCore_vb {s : St} (hs : LInv s) (hvb : s.VBound) (e0 : Nat) (p : Pt) (d : Nat) (b_0 : e0 < s.nE)
+    (hfe0 : s.fc e0 ≠ 0) (hft0 : s.fc (s.rv e0) = 0) :
+    (St.shCore s e0 (s.nxt e0) (s.prv e0) (s.rv e0) (s.prv (s.rv e0))
+      (s.org (s.prv e0)) (s.org (s.rv e0)) (s.fc e0) (s.fc (s.rv e0)) p d).VBound := by
+  have ev0 := hs.even
+  have b_3 := hs.rv_lt b_0
+  obtain ⟨b_1, b_2, a3, a4, a5, a6, a7, a8, a9, a10, a11⟩ := hs.tri b_0 hfe0
+  obtain ⟨x1, x2⟩ := hs.tri_cross b_0 hfe0
+  have rr := hs.rv_rv b_0
+  have rne := hs.rv_ne b_0
+  have E0 := hs.edge e0 b_0
+  have E1 := hs.edge _ b_1
+  have E2 := hs.edge _ b_2
+  have E3 := hs.edge _ b_3
+  have b_4 : s.prv (s.rv e0) < s.nE := E3.2.2.1
+  have E4 := hs.edge _ b_4
+  have c4 : s.nxt (s.prv (s.rv e0)) = s.rv e0 := E3.2.2.2.2.2.2.1
+  have c8 : s.fc (s.prv (s.rv e0)) = 0 := by
+    have := E4.2.2.2.2.2.2.2.1; rw [c4, hft0] at this; exact this.symm
+  have r1 := hs.rv_rv b_1
+  have r2 := hs.rv_rv b_2
+  have r4 := hs.rv_rv b_4
+  have l1 := hs.rv_lt b_1
+  have l2 := hs.rv_lt b_2
+  have l4 := hs.rv_lt b_4
+  have bn : s.nxt (s.rv e0) < s.nE := E3.2.1
+  have En := hs.edge _ bn
+  generalize hen : s.nxt e0 = en at *
+  generalize hep : s.prv e0 = ep at *
+  generalize ht : s.rv e0 = tw at *
+  generalize htq : s.prv tw = tq at *
+  have dd : e0 ≠ en ∧ e0 ≠ ep ∧ e0 ≠ tw ∧ e0 ≠ tq ∧ en ≠ ep ∧ en ≠ tw ∧ en ≠ tq ∧ ep ≠ tw ∧ ep ≠ tq ∧ tw ≠ tq := by
+    unfold EdgeOK dst at *
+    refine ⟨a9, a10, Ne.symm rne, ?_, a11, Ne.symm x1, ?_, Ne.symm x2, ?_, ?_⟩
+    all_goals grind
+  obtain ⟨d_0_1, d_0_2, d_0_3, d_0_4, d_1_2, d_1_3, d_1_4, d_2_3, d_2_4, d_3_4⟩ := dd
+  have fb1 : s.fc e0 < s.nF := E0.2.2.2.1
+  have n_0 : ∀ k, s.nE + k ≠ e0 := by intro k; omega
+  have m_0 : s.nE ≠ e0 := by omega
+  have u_0 : ∀ k, e0 < s.nE + k := by intro k; omega
+  have n_1 : ∀ k, s.nE + k ≠ en := by intro k; omega
+  have m_1 : s.nE ≠ en := by omega
+  have u_1 : ∀ k, en < s.nE + k := by intro k; omega
+  have n_2 : ∀ k, s.nE + k ≠ ep := by intro k; omega
+  have m_2 : s.nE ≠ ep := by omega
+  have u_2 : ∀ k, ep < s.nE + k := by intro k; omega
+  have n_3 : ∀ k, s.nE + k ≠ tw := by intro k; omega
+  have m_3 : s.nE ≠ tw := by omega
+  have u_3 : ∀ k, tw < s.nE + k := by intro k; omega
+  have n_4 : ∀ k, s.nE + k ≠ tq := by intro k; omega
+  have m_4 : s.nE ≠ tq := by omega
+  have u_4 : ∀ k, tq < s.nE + k := by intro k; omega
+  have szE : (s.shCore e0 en ep tw tq (s.org ep) (s.org tw) (s.fc e0) (s.fc tw) p d).nE = s.nE + 4 := by unfold St.shCore; evw [b_0, b_1, b_2, b_3, b_4, d_0_1, d_0_1.symm, d_0_2, d_0_2.symm, d_0_3, d_0_3.symm, d_0_4, d_0_4.symm, d_1_2, d_1_2.symm, d_1_3, d_1_3.symm, d_1_4, d_1_4.symm, d_2_3, d_2_3.symm, d_2_4, d_2_4.symm, d_3_4, d_3_4.symm, n_0, (n_0 _).symm, m_0, m_0.symm, u_0, n_1, (n_1 _).symm, m_1, m_1.symm, u_1, n_2, (n_2 _).symm, m_2, m_2.symm, u_2, n_3, (n_3 _).symm, m_3, m_3.symm, u_3, n_4, (n_4 _).symm, m_4, m_4.symm, u_4]
+  unfold St.shCore at szE ⊢
+  refine vbound_run s _ hvb (s.nE + 4) szE (by omega) ?_
+  intro i hi
+  simp only [List.mem_cons, List.not_mem_nil, or_false] at hi
+  rcases hi with rfl | rfl | rfl | rfl | rfl | rfl | rfl | rfl | rfl | rfl | rfl | rfl | rfl | rfl <;> simp only [Instr.argOK] <;> omega
+
 end St
 end Spade
